@@ -83,7 +83,7 @@ PROPS = {
                     "every Ask that succeeds must return what the handler produced for that very request, within its deadline."},
     "C14": {"streams": [_HUB_STREAM, {"name": "frag", "quick": 15000, "thorough": 300000, "thorough_seeds": 2, "stateful": True, "seq_start": ("frag-new", "mb-new")}],
             "race_oracles": {"quick": [("swarm", 16), ("hub", 40), ("ke", 12)], "thorough": [("swarm", 96), ("hub", 400), ("ke", 60), ("mux", 300), ("secure", 24)]},
-            "oracles": ["hub", "frag", "mux", "swarm", "asksteps"], "oracle_n_by": {"frag": {"quick": 3000, "thorough": 100000}, "mux": {"quick": 2000, "thorough": 100000}, "swarm": {"quick": 16, "thorough": 320}},
+            "oracles": ["hub", "frag", "mux", "swarm", "asksteps", "ke"], "oracle_n_by": {"ke": {"quick": 120, "thorough": 2000}, "frag": {"quick": 3000, "thorough": 100000}, "mux": {"quick": 2000, "thorough": 100000}, "swarm": {"quick": 16, "thorough": 320}},
             "rule": _HUB_RULE + " Swarm oracle: a reassembling layer (fragswarm, mbapp) over a network that duplicates every datagram a little later, three receivers whose callbacks hold their message: the memory of a message is never handed to a second callback while its owner runs and its contents stay what they were on entry. Buffer ownership above the hubs: in the frag, ke and ket streams every packet is handed to the layer in a "
                     "buffer that the harness overwrites as soon as the call returns (hx.Lend/Reclaim), as a transport that reuses its receive "
                     "buffers does; a layer that keeps a reference instead of a copy delivers corrupted bytes, which the model does not.", "level": "proof",
